@@ -121,6 +121,9 @@ def T.acc (side : Side) (k : OpK) (ctx : List Held) (p : List Nat) : T → List 
   | .filter _ t f =>
     let ctx' := ctx ++ mkHeld (.node p) (heldAtChildCall "filter.Filter" side k)
     t.acc side k ctx' (p ++ [0]) ++ f.acc side k ctx' (p ++ [1])
+  | .hide t =>
+    -- priority.Group: exchanges pass through (under its shared lock); verify and reset walks never enter
+    if k = .modify then t.acc side k (ctx ++ mkHeld (.node p) (heldAtChildCall "priority.Group" side k)) (p ++ [0]) else []
 def TL.acc (side : Side) (k : OpK) (ctx : List Held) (p : List Nat) (i : Nat) : TL → List Access
   | .nil => []
   | .cons t l => t.acc side k ctx (p ++ [i]) ++ l.acc side k ctx p (i + 1)
@@ -217,6 +220,7 @@ def T.covered : T → Bool
   | .fail => true
   | .group .. => true
   | .filter _ t f => t.covered && f.covered
+  | .hide _ => true   -- only exchanges reach the verifiers below a priority.Group: nothing ever resets them
 
 /-! ### `sync.RWMutex`, abstractly: who holds what -/
 
